@@ -43,6 +43,7 @@ func runC03(r *Report) {
 	c03R5(r)
 	c03R6(r)
 	c03R8(r)
+	c03R9(r)
 	_ = p
 }
 
@@ -679,4 +680,94 @@ func coversFromZero(idx ssa.Value) bool {
 		}
 	}
 	return false
+}
+
+// R9: two structural conditions found by the second round of seeded changes.
+// (a) alloc.Alloc adjusts the counter only on paths that hand out a buffer: from an adjustment of the counter no
+//     return with a non-nil error is reachable (a failed mmap must leave Bytes() unchanged: nobody can ever free
+//     the phantom bytes).
+// (b) the eviction order is by access time only if accesses refresh it: every path through Torrent.Request on which
+//     `request` is true calls Pieces.UpdateTime before it returns successfully (a read served from the cache
+//     must still count as an access).
+func c03R9(r *Report) {
+	p := r.P
+	if al := p.Func("alloc", "Alloc"); r.Anchor("R9", "alloc.Alloc", al != nil) {
+		r.Fn(al)
+		ne := newNilEnv(p)
+		n := 0
+		isAdjust := func(in ssa.Instruction) bool {
+			c, ok := in.(*ssa.Call)
+			if !ok {
+				return false
+			}
+			if isStdCall(in, "sync/atomic", "", "AddInt64") {
+				return true
+			}
+			h := c.Call.StaticCallee()
+			return h != nil && h.Blocks != nil && relPkg(h) == "alloc" && h != al && anyInstr(h, func(i ssa.Instruction) bool { return isStdCall(i, "sync/atomic", "", "AddInt64") }) != nil
+		}
+		allInstrs(al, func(in ssa.Instruction) {
+			if !isAdjust(in) {
+				return
+			}
+			n++
+			key := fmt.Sprintf("alloc.Alloc/counter-only-on-success#%d", n)
+			bad := ""
+			for _, ex := range exitsAvoiding(in, func(ssa.Instruction) bool { return false }, false) {
+				ret, ok := ex.(*ssa.Return)
+				if !ok {
+					continue
+				}
+				res := retResults(ret)
+				if len(res) == 0 {
+					continue
+				}
+				ev := res[len(res)-1]
+				if !isNilConst(ev) && ne.At(ev, ret.Block()) != IsNil {
+					bad = p.pos(ret.Pos())
+				}
+			}
+			r.Check(bad == "", "R9", key, in.Pos(), "the counter is adjusted only on paths that return a buffer",
+				"the allocation counter is increased on a path that can still fail (return at "+bad+" with a non-nil error): a failed mmap leaves Bytes() too high for good — no buffer exists that Free could subtract")
+		})
+		r.Sentinel("R9.alloc", n, 2)
+	}
+	req := p.Func("tor", "Torrent.Request")
+	upd := p.Func("tor/piece", "Pieces.UpdateTime")
+	if r.Anchor("R9", "tor.(*Torrent).Request", req != nil) && r.Anchor("R9", "piece.(*Pieces).UpdateTime", upd != nil) {
+		r.Fn(req)
+		rq := req.Params[3] // t, index, prio, request, want
+		var start *ssa.If
+		pol := true
+		allInstrs(req, func(in ssa.Instruction) {
+			iff, ok := in.(*ssa.If)
+			if !ok {
+				return
+			}
+			g := Guard{Cond: iff.Cond, Pol: true}.norm()
+			if g.Cond == ssa.Value(rq) && start == nil {
+				start, pol = iff, g.Pol
+			}
+		})
+		key := "Torrent.Request/access-refreshes-time"
+		if start == nil {
+			// no branch on `request`: then UpdateTime must be on every path to a successful return
+			miss, reached := pathsMissingEntry(req, func(in ssa.Instruction) bool {
+				ret, ok := in.(*ssa.Return)
+				return ok && isNilConst(retResults(ret)[2])
+			}, nil, []edgeReq{{Name: "UpdateTime", Instr: func(in ssa.Instruction) bool { return calleeOf(in) == upd }}})
+			r.Check(reached > 0 && len(miss) == 0, "R9", key, req.Pos(), "every successful request refreshes the piece's access time", "Torrent.Request can succeed without calling Pieces.UpdateTime: pieces are evicted in the order they were first requested, not least-recently-accessed first")
+		} else {
+			edge := 0
+			if !pol {
+				edge = 1
+			}
+			miss, reached := pathsMissingX(start, edge, func(in ssa.Instruction) bool {
+				ret, ok := in.(*ssa.Return)
+				return ok && isNilConst(retResults(ret)[2])
+			}, nil, []edgeReq{{Name: "UpdateTime", Instr: func(in ssa.Instruction) bool { return calleeOf(in) == upd }}}, nil)
+			r.Check(reached > 0 && len(miss) == 0, "R9", key, start.Pos(), "every path on which a piece is requested refreshes its access time before returning, complete or not",
+				"a path through Torrent.Request with request == true returns successfully without Pieces.UpdateTime (the only writer of a piece's access time): a read served from the cache no longer counts as an access and the piece is evicted as if it had never been used again")
+		}
+	}
 }
